@@ -7,9 +7,12 @@
 (*     `scale`), obs[i][j] = observed distance: M -> distance*scale as an integer,          *)
 (*     E -> (distance*scale)^2 as an integer; -2 = not such an integer, -3 = NaN/inf;       *)
 (*     bits[i][j] = hex of the float64 bit pattern (exact symmetry).                        *)
-(* kind = "sphere": lon[i], lat[i] integer degrees, m[i][j] = distance rounded to metres    *)
+(* kind = "sphere": lon[i], lat[i] integers in 1/sc degrees, m[i][j] = distance rounded to metres    *)
 (*     (-3 = NaN/inf), zero[i][j] = 1 iff the float is exactly 0.0, bits as above,          *)
-(*     piR = ceil(pi * radius) in metres, slack = 2 (metres, triangle inequality only).     *)
+(*     piR = ceil(pi * radius) in metres, slack = 2 (metres, triangle inequality only),     *)
+(*     ztol = 0: two names of one point are 0 m apart.  For arguments of a narrow type      *)
+(*     (float32, small ints) numba evaluates the haversine in single precision; the driver  *)
+(*     then widens slack / ztol / piR to that precision (64 m / 8 m / +16 m).               *)
 (* kind = "range":  cls = <<c_x1, c_x2, c_y1, c_y2>>, each 1 below min, 2 = min, 3 inside,  *)
 (*     4 = max, 5 above max;  raised = 1 iff the call raised ValueError; finite = 1 iff a   *)
 (*     finite number was returned.                                                          *)
@@ -49,8 +52,8 @@ PlaneV(c) ==
 SameOnSphere(c, i, j) ==
   /\ c.lat[i] = c.lat[j]
   /\ \/ c.lon[i] = c.lon[j]
-     \/ Abs(c.lat[i]) = 90
-     \/ {c.lon[i], c.lon[j]} = {-180, 180}
+     \/ Abs(c.lat[i]) = 90 * c.sc
+     \/ {c.lon[i], c.lon[j]} = {(0 - 180) * c.sc, 180 * c.sc}
 
 SphereV(c) ==
   LET n == Len(c.lon)
@@ -61,8 +64,8 @@ SphereV(c) ==
       \* identical arguments -> exactly 0.0 ; same point of the sphere -> 0 m ; different points -> > 0
       badzero == {<<i, j>> \in I \X I :
                     \/ ident(i, j) /\ c.zero[i][j] # 1
-                    \/ SameOnSphere(c, i, j) /\ c.m[i][j] # 0
-                    \/ ~SameOnSphere(c, i, j) /\ (c.m[i][j] = 0 \/ c.zero[i][j] = 1)}
+                    \/ SameOnSphere(c, i, j) /\ c.m[i][j] > c.ztol
+                    \/ ~SameOnSphere(c, i, j) /\ (c.m[i][j] <= c.ztol \/ c.zero[i][j] = 1)}
       badhalf == {<<i, j>> \in I \X I : c.m[i][j] > c.piR}
       badtri == {<<i, j, k>> \in I \X I \X I : c.m[i][k] > c.m[i][j] + c.m[j][k] + c.slack}
   IN CASE badfin # {}  -> <<"finite", ToString(CHOOSE x \in badfin : TRUE)>>
